@@ -154,7 +154,7 @@ def select_rowcount(vals: list[int]) -> bool:
 
 
 # ---------------------------------------------------------------- DDL status text
-NAMES = [("tab", "TAB"), ("Tab", "TAB"), ("TAB", "TAB"), ('"Tab"', "Tab"), ('"tab x"', "tab x"), ("t_1", "T_1")]
+NAMES = [("tab", "TAB"), ("Tab", "TAB"), ("TAB", "TAB"), ('"Tab"', "Tab"), ('"tab x"', "tab x"), ("t_1", "T_1"), ("identifier('tab')", "TAB"), ("IDENTIFIER('Tab_2')", "TAB_2")]
 QUAL = ["", "s2.", "db2.s3.", "DB2.S3.", '"DB2"."S3".']
 DDL = [
     # (template, expected message template, needs table to pre-exist, object kind)
@@ -174,7 +174,7 @@ DDL = [
 @ob(
     "C04.ddl_status_names_object",
     encodes=["fakesnow.cursor.FakeSnowflakeCursor.execute/_execute (status message synthesis)", "fakesnow.transforms.upper_case_unquoted_identifiers"],
-    bounds="10 table/view DDL forms x 6 object spellings (lower/mixed/upper, quoted mixed, quoted with space, with _ and digit) x 5 "
+    bounds="10 table/view DDL forms x 8 object spellings (lower/mixed/upper, quoted mixed, quoted with space, with _ and digit, through IDENTIFIER('...') in two cases) x 5 "
     "qualification spellings (none, schema, database.schema lower/upper/quoted)",
     timeout=(300, 600),
     stubs=["K2 vf.duckstub.Engine"],
@@ -192,6 +192,8 @@ def _ddl_status_body(d: int, ni: int, qi: int, real) -> bool:
     tmpl, msg, pre_exists, kind = DDL[d]
     spelled, folded = NAMES[ni]
     q = QUAL[qi]
+    if spelled.lower().startswith("identifier(") and (qi != 0 or "rename" in tmpl):
+        return True  # IDENTIFIER() names are only exercised unqualified
     if real is None:
         eng, fs, conn = _session()
         db, sc = ("DB1", "S1") if qi == 0 else ("DB1", "S2") if qi == 1 else ("DB2", "S3")
@@ -201,7 +203,8 @@ def _ddl_status_body(d: int, ni: int, qi: int, real) -> bool:
     else:
         conn, cur = real
         if pre_exists:
-            cur.execute(f"create {'view' if kind == 'VIEW' else 'table'} {q}{spelled} " + ("as select 1 a" if kind == "VIEW" else "(a int)"))
+            plain = folded if spelled.lower().startswith("identifier(") else spelled
+            cur.execute(f"create {'view' if kind == 'VIEW' else 'table'} {q}{plain} " + ("as select 1 a" if kind == "VIEW" else "(a int)"))
     cur.execute(tmpl.format(q=q, n=spelled))
     rows = cur.fetchall()
     want = msg.format(N=folded)
